@@ -302,6 +302,77 @@ pub fn run_rewire(p: &Program, j: usize, h: usize, reference: &[BddNode]) -> Vec
     out
 }
 
+/// the repair step (`fix_import`, public and idempotent) called on a CONNECTED store in mid-stream: who = 0 the producer
+/// after j operations, 1 the receiver after it has consumed the nodes of the first j operations, 2 the relay of a chain
+/// at that moment. The stream must go on as if nothing had happened: every created node is sent exactly once, in order;
+/// receiver, relay and end of the chain end up with the producer's table.
+pub fn run_repair(p: &Program, j: usize, who: u8, reference: &[BddNode]) -> Vec<(String, String)> {
+    let mut out = vec![];
+    let j = j.min(p.ops.len());
+    let (s1, r1) = unbounded::<BddNode>();
+    let (tap_s, tap_r) = unbounded::<BddNode>(); // what the relay forwards (who = 2)
+    let mut prod = mk_producer(s1);
+    if who == 2 {
+        let mut relay = mk_relay(tap_s, r1);
+        let mut last = mk_receiver(tap_r);
+        for op in &p.ops[..j] {
+            apply(&mut prod, op);
+        }
+        let _ = relay.recv(Term(usize::MAX));
+        relay.fix_import();
+        for op in &p.ops[j..] {
+            apply(&mut prod, op);
+        }
+        drop(prod);
+        let _ = relay.recv(Term(usize::MAX));
+        if relay.nodes[..] != reference[..] {
+            out.push(("relay:final-table".into(), format!("a relay that ran the repair step after {} operations holds {} of the producer's {} nodes", j, relay.nodes.len(), reference.len())));
+        }
+        drop(relay);
+        let _ = last.recv(Term(usize::MAX));
+        if last.nodes[..] != reference[..] {
+            out.push(("last:final-table".into(), format!("the end of a chain whose relay ran the repair step after {} operations holds {} nodes, the producer {}", j, last.nodes.len(), reference.len())));
+        }
+        return out;
+    }
+    drop(tap_s);
+    drop(tap_r);
+    if who == 0 {
+        for op in &p.ops[..j] {
+            apply(&mut prod, op);
+        }
+        prod.fix_import();
+        for op in &p.ops[j..] {
+            apply(&mut prod, op);
+        }
+        if prod.nodes[..] != reference[..] {
+            out.push(("producer:table-differs".into(), "the producer's table differs from its table when run without the repair step".into()));
+        }
+        drop(prod);
+        let msgs: Vec<BddNode> = r1.try_iter().collect();
+        if msgs[..] != reference[2..] {
+            out.push(("producer:stream".into(), format!("a producer that ran the repair step after {} operations streamed {} messages for {} created nodes (or in another order)", j, msgs.len(), reference.len() - 2)));
+        }
+        return out;
+    }
+    let mut recv = mk_receiver(r1);
+    for op in &p.ops[..j] {
+        apply(&mut prod, op);
+    }
+    let _ = recv.recv(Term(usize::MAX));
+    recv.fix_import();
+    for op in &p.ops[j..] {
+        apply(&mut prod, op);
+    }
+    poll(&mut recv, prod.nodes.len() - 1, prod.nodes.len() - 2, reference, "receiver(after its repair step)", &mut out);
+    drop(prod);
+    let _ = recv.recv(Term(usize::MAX));
+    if recv.nodes[..] != reference[..] {
+        out.push(("receiver:final-table".into(), format!("a receiver that ran the repair step after the nodes of {} operations holds {} of the producer's {} nodes", j, recv.nodes.len(), reference.len())));
+    }
+    out
+}
+
 /// a long stream (more than 2^16 messages): polls at cut points around 65535 / 65536 and at both ends, single receiver
 /// and relay chain
 pub fn big_stream_case(pairs: usize) -> Vec<(String, String)> {
@@ -678,6 +749,34 @@ pub fn run_c19(run: &Run) {
     for st in res {
         run.add_counts(0, st, st, st);
     }
+    // the repair step on connected stores
+    let res = run.par_family(
+        &format!("{} producer programs x the repair step (fix_import) on the producer / the receiver / the relay at every operation boundary", progs.len()),
+        progs.len() as u64,
+        || 0u64,
+        |st, k| {
+            let p = &progs[k as usize];
+            let reference = &refs[k as usize];
+            for who in 0..3u8 {
+                for j in 0..=p.ops.len() {
+                    *st += 1;
+                    let case = json!({"type": "repair", "program": prog_json(p), "after_ops": j, "who": who});
+                    match guard(|| run_repair(p, j, who, reference)) {
+                        Err(m) => run.violation("repair:panic", m, case),
+                        Ok(found) => {
+                            for (kind, msg) in found {
+                                run.violation(&kind, format!("{} (program {})", msg, prog_json(p)), case.clone());
+                            }
+                        }
+                    }
+                }
+            }
+        },
+        &|k| json!({"type": "repair", "program": prog_json(&progs[k as usize]), "after_ops": 0, "who": 0}),
+    );
+    for st in res {
+        run.add_counts(0, st, st, st);
+    }
     // long streams
     let sizes: Vec<usize> = if quick { vec![17_000] } else { vec![17_000, 40_000] };
     let res = run.par_family(
@@ -731,6 +830,13 @@ pub fn run_c19(run: &Run) {
 }
 
 pub fn replay(c: &Value) -> Vec<(String, String)> {
+    if c["type"] == "repair" {
+        let p = Program { ops: c["program"].as_array().map(|a| a.iter().filter_map(op_from_json).collect()).unwrap_or_default() };
+        let mut b = Bdd::new();
+        run_program(&mut b, &p);
+        let reference = b.nodes.clone();
+        return guard(|| run_repair(&p, c["after_ops"].as_u64().unwrap_or(0) as usize, c["who"].as_u64().unwrap_or(0) as u8, &reference)).unwrap_or_else(|m| vec![("repair:panic".into(), m)]);
+    }
     if c["type"] == "big-stream" {
         return guard(|| big_stream_case(c["pairs"].as_u64().unwrap_or(17000) as usize)).unwrap_or_else(|m| vec![("stream:panic".into(), m)]);
     }
